@@ -37,14 +37,14 @@ Theorem C19_stops_on_success_cancel_noretry : forall iv maxd cancel pick0 calls 
   (forall i, (i < length atts)%nat -> a_out (nth i atts att0) = c_out (nth i calls call0)) /\
   (cancel = None -> r <> RCtxCanceled) /\
   (r = RPending -> length atts = length calls) /\
-  (r = RGiveUpNil \/ r = RLoopExit -> (maxd <= te)%Z).
+  (r = RGiveUp \/ r = RLoopExit -> (maxd <= te)%Z).
 Proof. exact stops_on_success_cancel_noretry. Qed.
 Print Assumptions C19_stops_on_success_cancel_noretry.
 
 Theorem C19_retries_while_failing : forall iv maxd pick0 calls atts r te, iv <> [] ->
   Forall (fun c => c_out c = OPlain) calls ->
   do_with_retry iv maxd None pick0 calls = (atts, r, te) ->
-  (r = RPending /\ length atts = length calls) \/ ((r = RGiveUpNil \/ r = RLoopExit) /\ (maxd <= te)%Z).
+  (r = RPending /\ length atts = length calls) \/ ((r = RGiveUp \/ r = RLoopExit) /\ (maxd <= te)%Z).
 Proof. exact retries_while_failing. Qed.
 Print Assumptions C19_retries_while_failing.
 
@@ -55,13 +55,22 @@ Theorem C19_cancel_prompt : forall iv maxd cn pick0 calls atts r te, iv <> [] ->
 Proof. exact cancel_prompt. Qed.
 Print Assumptions C19_cancel_prompt.
 
-(** noted, not a finding of the check: after maxRetryDuration the loop returns nil although
-    every attempt failed *)
-Theorem C19_nil_means_success_refuted : exists iv maxd calls atts te,
+(** nil means success, also at the horizon: the loop returns nil only when its last attempt
+    succeeded.  (Tied with the horizon shrunk to a fraction of a second: class retry-horizon.) *)
+Theorem C19_nil_only_after_success : forall iv maxd cancel pick0 calls atts r te, iv <> [] ->
+  do_with_retry iv maxd cancel pick0 calls = (atts, r, te) -> returns_nil r = true ->
+  exists l a, atts = l ++ [a] /\ Forall plain l /\ a_out a = OOk.
+Proof. exact nil_only_after_success. Qed.
+Print Assumptions C19_nil_only_after_success.
+
+(** the code before the fix 9155753: after maxRetryDuration "giving up" returned nil although
+    every attempt had failed *)
+Theorem C19_giving_up_returned_nil_orig_refuted : exists iv maxd calls atts r te,
   iv <> [] /\ all_positive iv = true /\
-  do_with_retry iv maxd None false calls = (atts, RGiveUpNil, te) /\ Forall plain atts /\ atts <> [].
-Proof. exact nil_means_success_refuted. Qed.
-Print Assumptions C19_nil_means_success_refuted.
+  do_with_retry iv maxd None false calls = (atts, r, te) /\ returns_nil_gen false r = true /\
+  Forall plain atts /\ atts <> [].
+Proof. exact giving_up_returned_nil_orig_refuted. Qed.
+Print Assumptions C19_giving_up_returned_nil_orig_refuted.
 
 (** ** (c) test CA *)
 Theorem C19_test_cert_never_returned : forall norm ca testca attempts outs ds d,
@@ -84,6 +93,37 @@ Theorem C19_retries_use_test_ca_first : forall norm ca testca attempts o rest,
     Some (if (0 <? attempts)%Z && negb (is_empty_name testca) then testca else norm ca).
 Proof. exact first_order_directory. Qed.
 Print Assumptions C19_retries_use_test_ca_first.
+
+(** The asynchronous obtain as a whole (doWithRetry around Issue; [outs] = the outcomes of the
+    successive orders, whichever CA they reach; any number of attempts): with a distinct test
+    CA configured, a certificate that ends the loop comes from the production directory; every
+    successful order at the test CA is followed by an order at the production CA; orders go
+    nowhere else; the first attempt orders from production, and (by C19_retries_use_test_ca_first)
+    every later one from the test CA first.  Tied end to end: the real ACMEIssuer against two
+    mock ACME CAs with scripted order outcomes (classes e2e-issue, e2e-async). *)
+Theorem C19_async_test_cert_never_stored : forall norm fuel ca testca outs ds r,
+  testca <> [] -> ca <> testca -> norm ca <> testca ->
+  obtain_async norm fuel ca testca 0 outs = (ds, r) ->
+  (length ds <= length outs)%nat /\
+  (forall d, r = ICert d -> d = norm ca) /\
+  follows testca (norm ca) ds outs /\
+  (forall d, In d ds -> d = testca \/ d = norm ca) /\
+  (forall d, hd_error ds = Some d -> d = norm ca).
+Proof.
+  intros norm fuel ca testca outs ds r Ht Hne Hn H.
+  exact (obtain_async_inv norm fuel ca testca 0%Z outs ds r Ht Hne Hn (Z.le_refl 0) H).
+Qed.
+Print Assumptions C19_async_test_cert_never_stored.
+
+(** what the model of Issue hard-codes, re-read from acmeissuer.go / acmeclient.go on every run:
+    isRetry := attempts > 0; two doIssue calls, the first with [attempts], the second with 0,
+    the second under `isRetry && usedTestCA && am.CA != am.TestCA`, with the HTTP 429 test and
+    the ErrNoRetry wrap; secureCAURL's scheme rule *)
+Theorem C19_issue_shape_as_modelled :
+  issue_retry_threshold = 0%Z /\ issue_second_order_attempts = 0%Z /\ issue_shape_ok = true /\
+  ca_scheme_sep = [58; 47; 47]%N /\ ca_default_scheme = [104; 116; 116; 112; 115; 58; 47; 47]%N.
+Proof. repeat split; reflexivity. Qed.
+Print Assumptions C19_issue_shape_as_modelled.
 
 (** ** (b) jobManager — for every history of submissions, worker steps and job outcomes
     (ok, error, panic), any number of workers *)
@@ -145,3 +185,8 @@ Proof. eexists. split; [vm_compute; reflexivity|]. repeat split. Qed.
 Example C19_issue_example :
   issue (fun x => x) [112%N] [116%N] 2 [OrdOk; OrdOk] = ([[116%N]; [112%N]], ICert [112%N]).
 Proof. reflexivity. Qed.
+Example C19_async_example :
+  let p := [112%N] in let t := [116%N] in
+  obtain_async (fun x => x) 10 p t 0 [OrdFail; OrdOk; OrdRateLimited; OrdFail; OrdOk; OrdOk] =
+    ([p; t; p; t; t; p], ICert p) /\ t <> [] /\ p <> t.
+Proof. cbn zeta. split; [vm_compute; reflexivity|]. split; discriminate. Qed.
